@@ -25,6 +25,7 @@ static LD const FLOOR_ = sizeof(R) == 4 ? 1e-40L : (sizeof(R) == 8 ? 1e-300L : 1
 static LD const DET_HUGE = sizeof(R) == 4 ? 1e36L : (sizeof(R) == 8 ? 1e300L : 1e4900L);
 static LD const DET_TINY = sizeof(R) == 4 ? 1e-34L : (sizeof(R) == 8 ? 1e-290L : 1e-4890L);
 static R const BIGV = std::numeric_limits<R>::max() / 1024;
+static bool same_bits(R a, R b) { return memcmp(&a, &b, sizeof(R) > 8 ? 10 : sizeof(R)) == 0; } // x87 long double: 10 value bytes + padding
 static void hashR(Ctx &cx, R v)
 {
     int e = 0;
@@ -350,6 +351,23 @@ static void check_plu(Tape &t, Ctx &cx, unsigned n)
         a_real_plu_solve(n, A.p, p, bb.p, x.p);
         if (finite_all(x.p, n)) { resid(x.p, b, "plu:solve_residual", "plu_solve", 1); }
         else { ++cx.rep->excluded; }
+        {
+            unsigned j = t.u8() % n;
+            Blk Mx(size_t(n) * n);
+            std::vector<R> before(Mx.p, Mx.p + size_t(n) * n), col(n);
+            for (unsigned i = 0; i < n; ++i) { Mx.p[size_t(i) * n + j] = pb.p[i]; }
+            a_real_plu_lower_(n, A.p, Mx.p + j);
+            a_real_plu_upper_(n, A.p, Mx.p + j);
+            for (unsigned i = 0; i < n; ++i)
+            {
+                col[i] = Mx.p[size_t(i) * n + j];
+                for (unsigned c = 0; c < n; ++c)
+                {
+                    if (c != j) { VP_CHECK(cx, same_bits(Mx.p[size_t(i) * n + c], before[size_t(i) * n + c]), "plu:strided_solve_touches_other_column", "plu_lower_/upper_ on column %u changed cell (%u,%u)", j, i, c); }
+                }
+            }
+            if (finite_all(col.data(), n)) { resid(col.data(), b, "plu:strided_solve_residual", "apply + lower_ + upper_ on a column", 1); }
+        }
     }
     if (!extreme)
     {
@@ -641,6 +659,24 @@ static void check_sym(Tape &t, Ctx &cx, unsigned n, int kind)
         kind ? a_real_llt_solve(n, A.p, x.p) : a_real_ldl_solve(n, A.p, x.p);
         if (finite_all(x.p, n)) { resid(x.p, b, kind ? "llt:solve_residual" : "ldl:solve_residual", kind ? "llt_solve" : "ldl_solve", 1); }
         else { ++cx.rep->excluded; }
+        // the strided forms solve in place on one column of an n x n block and leave the other columns alone
+        {
+            unsigned j = t.u8() % n;
+            Blk Mx(size_t(n) * n);
+            std::vector<R> before(Mx.p, Mx.p + size_t(n) * n), col(n);
+            for (unsigned i = 0; i < n; ++i) { Mx.p[size_t(i) * n + j] = b[i]; }
+            if (kind) { a_real_llt_lower_(n, A.p, Mx.p + j); a_real_llt_upper_(n, A.p, Mx.p + j); }
+            else { a_real_ldl_lower_(n, A.p, Mx.p + j); a_real_ldl_upper_(n, A.p, Mx.p + j); }
+            for (unsigned i = 0; i < n; ++i)
+            {
+                col[i] = Mx.p[size_t(i) * n + j];
+                for (unsigned c = 0; c < n; ++c)
+                {
+                    if (c != j) { VP_CHECK(cx, same_bits(Mx.p[size_t(i) * n + c], before[size_t(i) * n + c]), kind ? "llt:strided_solve_touches_other_column" : "ldl:strided_solve_touches_other_column", "%s_lower_/upper_ on column %u changed cell (%u,%u)", nm, j, i, c); }
+                }
+            }
+            if (finite_all(col.data(), n)) { resid(col.data(), b, kind ? "llt:strided_solve_residual" : "ldl:strided_solve_residual", "lower_ + upper_ on a column", 1); }
+        }
     }
     if (!extreme)
     {
